@@ -81,7 +81,12 @@ type chainScript struct {
 type chainBlockRec struct {
 	Txs   []string `json:"txs"`
 	Kinds []string `json:"kinds"`
+	// transactions that reached the mempool (CheckTx) of every node before this block without being included
+	Pool []string `json:"pool"`
 }
+
+// transactions that were checked into the mempool and wait there (bytes as gossiped)
+var pendingTxs [][]byte
 
 func coin(amt string) sdk.Coin {
 	i, ok := sdkmath.NewIntFromString(amt)
@@ -485,6 +490,9 @@ func chainTx(n *Node, contracts *[]common.Address, t M) ([]byte, error) {
 				banktypes.NewMsgSend(gov, from.Addr, sdk.NewCoins(coin("900000000000000000000000000000"))))
 		} else {
 			params.AllowUnprotectedTxs = !params.AllowUnprotectedTxs
+			if v, ok := t["allow"]; ok {
+				params.AllowUnprotectedTxs = v == true
+			}
 			msgs = append(msgs, &evmtypes.MsgUpdateParams{Authority: gov.String(), Params: params})
 		}
 		msg, err := govv1.NewMsgSubmitProposal(msgs, sdk.NewCoins(coin("5000")), from.Addr.String(), "", "t", "s")
@@ -492,6 +500,28 @@ func chainTx(n *Node, contracts *[]common.Address, t M) ([]byte, error) {
 			return nil, err
 		}
 		return cosmos(800000, msg)
+	case "eth_unprotected":
+		// a legacy Ethereum transaction signed without chain id (accepted only while the EVM parameters allow it)
+		ctx := n.Ctx()
+		base := n.App.FeeMarketKeeper.GetBaseFee(ctx)
+		if base == nil {
+			base = big.NewInt(0)
+		}
+		to := ethAddr(w.Acct(str(t, "to")))
+		msg, err := BuildEthMsg(from, EthTxOpts{Type: 0, Nonce: n.App.EvmKeeper.GetNonce(ctx, ethAddr(from)), To: &to,
+			Value: coin(str(t, "amt")).Amount.BigInt(), Gas: 60000, Unprotected: true,
+			GasPrice: new(big.Int).Add(new(big.Int).Mul(base, big.NewInt(3)), big.NewInt(1_000_000_000))})
+		if err != nil {
+			return nil, err
+		}
+		return WrapEthMsgs(msg)
+	case "pending":
+		// a transaction that has been waiting in the mempool is included now
+		i := int(num(t, "idx", 0))
+		if i >= len(pendingTxs) {
+			return nil, fmt.Errorf("nothing pending")
+		}
+		return pendingTxs[i], nil
 	case "gov_upgrade":
 		// a software-upgrade proposal: the named upgrade handler of this binary runs at the plan height
 		gov := authtypes.NewModuleAddress("gov")
@@ -933,8 +963,30 @@ func chainMain(args []string) error {
 	emit(M{"ev": "reset", "cfg": sc.Cfg})
 	var contracts []common.Address
 	bi := 0
+	pendingTxs = nil
+	var poolBuf []string
 	for _, st := range sc.Steps {
 		switch st.Ev {
+		case "mempool":
+			// transactions reach the mempool of every node (CheckTx) and stay there: process state, not chain state
+			if *role == "gen" {
+				for _, t := range st.Txs {
+					n.BetweenBlocks = true
+					bz, err := chainTx(n, &contracts, t)
+					n.BetweenBlocks = false
+					if err != nil {
+						continue
+					}
+					poolBuf = append(poolBuf, hex.EncodeToString(bz))
+					pendingTxs = append(pendingTxs, bz)
+					n.App.CheckTx(abci.RequestCheckTx{Tx: bz, Type: abci.CheckTxType_New})
+				}
+			} else if bi < len(recs) {
+				for _, h := range recs[bi].Pool {
+					bz, _ := hex.DecodeString(h)
+					n.App.CheckTx(abci.RequestCheckTx{Tx: bz, Type: abci.CheckTxType_New})
+				}
+			}
 		case "block":
 			halted := false
 			func() {
@@ -1006,6 +1058,7 @@ func chainMain(args []string) error {
 					rec.Kinds = append(rec.Kinds, str(t, "k"))
 					deliver(bz, str(t, "k"))
 				}
+				rec.Pool, poolBuf = poolBuf, nil
 				recs = append(recs, rec)
 			} else {
 				for i, h := range rec.Txs {
